@@ -45,7 +45,7 @@ def check(ctx, tier):
     viewrules.col_slice_model(ctx, tk, "C03.i")
     viewrules.column_units(ctx, tk, "C03.h")
     from .. import hazards as _hz, scopes as _sc
-    _hz.generic(ctx, tk, "C03.z", _sc.scope(tk, "C03", depth=2))
+    _hz.generic(ctx, tk, "C03.z", _sc.scope(tk, "C03", depth=1))
     return {}
 
 
